@@ -112,9 +112,28 @@ class Ctx:
         return True
 
     def guarded(self, rule, instance, fn, where=None):
-        """Run fn(); AnalysisIncomplete becomes a fail-closed result."""
+        """Run fn(); AnalysisIncomplete becomes a fail-closed result.  A rule that exceeds its time budget (normal forms
+        of a restructured formula can explode) is reported as incomplete instead of running on."""
+        import signal
+        budget = int(os.environ.get('VERIF_RULE_TIMEOUT', '240'))
+
+        class _Timeout(Exception):
+            pass
+
+        def _alarm(signum, frame):
+            raise _Timeout()
+        old = None
+        try:
+            old = signal.signal(signal.SIGALRM, _alarm)
+            signal.alarm(budget)
+        except (ValueError, AttributeError):
+            old = None
         try:
             return fn()
+        except _Timeout:
+            self.incomplete(rule, instance, 'abstract evaluation exceeded its time budget of %d s (normal-form blow-up)' % budget, where)
+        except MemoryError:
+            self.incomplete(rule, instance, 'abstract evaluation exhausted memory', where)
         except AnalysisIncomplete as e:
             self.incomplete(rule, instance, e.what, where)
         except RecursionError:
@@ -122,6 +141,13 @@ class Ctx:
         except Exception as e:   # analyzer defect: fail closed for this rule, keep evaluating the others
             traceback.print_exc()
             self.incomplete(rule, instance, 'analyzer error %s: %s' % (type(e).__name__, e), where)
+        finally:
+            try:
+                signal.alarm(0)
+                if old is not None:
+                    signal.signal(signal.SIGALRM, old)
+            except (ValueError, AttributeError):
+                pass
         return None
 
 
